@@ -90,7 +90,7 @@ def run(rep, tier, field):
     for n in [1 << k for k in range(11)] + [3, 6, 1000]:
         try:
             r = felt_glue_scen(n)
-        except Unsupported as e:
+        except (Unsupported, AttributeError, TypeError, KeyError, IndexError, ValueError) as e:
             rep.oblige(1, ok=False)
             rep.note_inconclusive('FastFft glue / butterfly execution at n=%d: %s' % (n, str(e)[:200]))
             continue
@@ -213,6 +213,12 @@ def complex_glue_scen(n):
     ex.over['Complex::new'] = ov_cnew
     ex.over['num_complex::Complex::new'] = ov_cnew
 
+    def ov_conj(ex, st, fr, args, info):
+        z = args[0] if isinstance(args[0], Agg) else ex.deref(st, args[0])
+        return Agg('Complex', None, (z.f[0], V(-z.f[1].t, 'f64')))
+    ex.over['Complex::conj'] = ov_conj
+    ex.over['num_complex::Complex::conj'] = ov_conj
+
     def rec(name):
         def f(ex, st, fr, args, info):
             tabs = []
@@ -247,7 +253,7 @@ def complex_glue_scen(n):
         st.stack.append(fr)
         try:
             ex.explore(st)
-        except Unsupported as e:
+        except (Unsupported, AttributeError, TypeError, KeyError, IndexError, ValueError) as e:
             # the method does its own floating-point work instead of handing table + data to the generic butterflies: it cannot be
             # compared structurally; it is checked natively (complex_ops) by the driver
             res.setdefault('custom', {})[meth] = str(e)[:160]
